@@ -1,6 +1,7 @@
 """C06 - evaluator operator table and stack discipline, unimplemented-arm inventory, short-circuit lookup,
 dependency sibling rule on baa's one-word / multi-word branches."""
 from ..tree import *  # noqa
+from .. import norm as norm_
 from ..flow import Index
 from ..tables import *  # noqa
 from .c02 import binding_of_pat
@@ -123,6 +124,20 @@ class Sim:
     def stmt(self, s_):
         s_ = unsemi(s_)
         k = s_.get("k")
+        if k == "blockexpr":
+            # a nested block (e.g. an inlined helper): its statements in order; parameters bound to a stack are aliases of that stack
+            sims = [self]
+            items = list(s_["b"]["stmts"]) + ([s_["b"]["tail"]] if "tail" in s_["b"] else [])
+            for x in items:
+                x0 = unsemi(x)
+                if x0.get("k") == "let" and "init" in x0 and x0["pat"].get("k") == "pbind" and self.which(x0["init"]):
+                    self.ids[x0["pat"]["id"]] = self.which(x0["init"])
+                    continue
+                nxt = []
+                for sm in sims:
+                    nxt += sm.stmt(x)
+                sims = nxt
+            return sims
         if k == "let":
             b = binding_of_pat(s_["pat"])
             v = self.ev_value(s_["init"])
@@ -323,15 +338,39 @@ def fmt(t):
 def helper_pops(ctx, f, n):
     """un_op/bin_op pop n operands from the stack parameter in order and call op(a[, b]) in that order, pushing the result"""
     P = [binding_of_pat(p) for p in f["params"]]
+    ix = Index(f["body"])
     order = []
-    for s_ in stmts_of(f["body"]):
-        s_ = unsemi(s_)
-        if s_.get("k") == "let":
-            b, ms = chain(s_["init"])
-            if is_local(b, P[0][1]) and ms and ms[0][0] == "pop":
-                order.append(binding_of_pat(s_["pat"])[1])
+    pops = [x for x in ix.nodes if x.get("k") == "mcall" and x["name"] == "pop" and is_local(x["recv"], P[0][1])]
+    for po in pops:
+        # the binding that receives this pop: `let a = S.pop().unwrap..()`, `let Some(a) = S.pop() else {..}`,
+        # or the i-th `Some(x)` of a match / let on the tuple (S.pop(), S.pop())
+        bound = None
+        chain_top = po
+        par = ix.parent.get(id(po))
+        while par is not None and par.get("k") in ("mcall", "try", "ref") and (par.get("recv") is chain_top or par.get("e") is chain_top):
+            chain_top = par
+            par = ix.parent.get(id(par))
+        if par is not None and par.get("k") == "tuple":
+            pos = [i_ for i_, e_ in enumerate(par["es"]) if e_ is chain_top]
+            holder = ix.parent.get(id(par))
+            pats = []
+            if holder is not None and holder.get("k") == "match":
+                pats = [a["pat"] for a in holder["arms"] if not (a["body"].get("ty") == "!" or norm_._diverges(a["body"]))]
+            elif holder is not None and holder.get("k") in ("let", "letexpr"):
+                pats = [holder["pat"]]
+            if pos and len(pats) == 1 and pats[0].get("k") == "ptuple" and len(pats[0]["subs"]) == len(par["es"]):
+                b_ = pat_bindings(pats[0]["subs"][pos[0]])
+                bound = b_[0][1] if len(b_) == 1 else None
+        elif par is not None and par.get("k") in ("let", "letexpr"):
+            b_ = pat_bindings(par["pat"])
+            bound = b_[0][1] if len(b_) == 1 else None
+        if bound is None:
+            order = None
+            break
+        order.append(bound)
+    order = order or []
     call = [x for x in walk(f["body"]) if x.get("k") == "callv" and is_local(x["f"], P[1][1])]
-    ok = len(order) == n and len(call) == 1 and [local_id(a) for a in call[0]["args"]] == order
+    ok = len(order) == n and len(call) == 1 and len(call[0]["args"]) == n and all(is_local(a, o) for a, o in zip(call[0]["args"], order))
     pushes = [x for x in walk(f["body"]) if x.get("k") == "mcall" and x["name"] == "push" and is_local(x["recv"], P[0][1])]
     ok = ok and len(pushes) == 1
     ctx.inst("R06.1", "helper:%s" % f["path"].split("::")[-1], ok, f["span"], "%s must pop %d operand(s) in order, apply op to them in pop order and push the result" % (f["path"], n))
